@@ -484,8 +484,24 @@ func ruleHandlerExactlyOnce(c *Ctx, rule string) {
 			okc, whyc = false, "handler invocation is inside a loop"
 		}
 		entry := pu.Blocks[0].Instrs[0]
-		if bad := p.mustPass(entry, func(i ssa.Instruction) bool { return i == h }, false); bad != nil && entry != h {
-			okc, whyc = false, "a path from entry to "+p.ipos(bad)+" returns a reply without invoking the handler"
+		// the only way round the handler is a request whose metadata could not be decoded (malformed request:
+		// the property demands that no handler runs for it)
+		mdErr := ""
+		for _, ci := range p.callsTo(pu, "goat.contextFromHeaders", false) {
+			if ex := extractOf(ci.(*ssa.Call), 2); ex != nil {
+				mdErr = p.lpath(ex)
+			}
+		}
+		bad := p.mustPassUnless(entry, func(i ssa.Instruction) bool { return i == h }, func(ifi *ssa.If, succ int) bool {
+			for _, a := range p.factsOf(pu).atomsOf(ifi.Cond, succ == 0, map[*ssa.BasicBlock]AtomSet{}, 0) {
+				if mdErr != "" && a == atom("nonnil", mdErr) && p.reachesWithout(ifi.Block().Succs[succ], h.Block()) {
+					return true
+				}
+			}
+			return false
+		})
+		if bad != nil && entry != h {
+			okc, whyc = false, "a path from entry to "+p.ipos(bad)+" returns a reply without invoking the handler (other than for undecodable request metadata)"
 		}
 	}
 	c.check(rule, "processUnaryRpc:handler-once", okc, whyc, p.pos(pu.Pos()))
@@ -588,7 +604,29 @@ func rulePayloadProvenance(c *Ctx, rule string) {
 		if al, ok := e.allocs[t.Name].(*ssa.Alloc); ok {
 			for _, s := range p.allocFieldStores(al, "Data") {
 				d := e.Of(s.Val)
-				okRep, whyRep = d.AllMatch("call(*Materialize,call(*Marshal#0,_,dyncall(#0,field(Handler,_),...)))")
+				okRep, whyRep = d.AllMatch("call(*Materialize,call(*Marshal#0,_,_))")
+				// the value marshalled is result 0 of the handler invocation (nil alternatives are excluded by the
+				// `resp != nil` guard checked in C06.8)
+				if cl, isCall := s.Val.(*ssa.Call); okRep && isCall {
+					if ex, isEx := cl.Call.Args[0].(*ssa.Extract); isEx {
+						if mc, isMC := ex.Tuple.(*ssa.Call); isMC {
+							ro := e.Of(mc.Call.Args[len(mc.Call.Args)-1])
+							nd := 0
+							for _, t := range ro {
+								switch {
+								case Match(t, "dyncall(#0,field(Handler,_),...)", nil):
+									nd++
+								case t.Op == "const" && t.Name == "nil", t.Op == "zero":
+								default:
+									okRep, whyRep = false, "the reply marshalled may be "+t.String()+", not the handler's result"
+								}
+							}
+							if nd == 0 {
+								okRep, whyRep = false, "the reply marshalled is never the handler's result: "+ro.String()
+							}
+						}
+					}
+				}
 			}
 		}
 	}
@@ -623,3 +661,22 @@ func rulePayloadProvenance(c *Ctx, rule string) {
 }
 
 var _ = token.MUL
+
+// reachesWithout: a function exit is reachable from b without entering avoid.
+func (p *Prog) reachesWithout(b, avoid *ssa.BasicBlock) bool {
+	seen := map[*ssa.BasicBlock]bool{avoid: true}
+	st := []*ssa.BasicBlock{b}
+	for len(st) > 0 {
+		x := st[len(st)-1]
+		st = st[:len(st)-1]
+		if seen[x] {
+			continue
+		}
+		seen[x] = true
+		if len(x.Succs) == 0 {
+			return true
+		}
+		st = append(st, x.Succs...)
+	}
+	return false
+}
